@@ -28,3 +28,5 @@ def run(ctx):
     ctx.guarded(r, lambda rule: S_.r1_choice_consumption(rule))
     ctx.guarded(r, S_.r2_left_right)
     ctx.guarded(r, S_.r_renaming)
+    r = ctx.rule("R8", "the NaN-boxed pixel: a distance is inside exactly under `v < 0.0` (a NaN of either sign is outside), a fill by its own flag; writer and reader agree on the bit fields and the key", 6)
+    ctx.guarded(r, R.r_pixel_boxing)
